@@ -44,3 +44,20 @@ func splitColon(s string) int {
 	}
 	return 0
 }
+
+// C07: a complete canonical base vector (fixed metric values) whose version text is an arbitrary string (no '/' and no ':'):
+// all three decoders accept it exactly when the text is "3.0" or "3.1", and the object carries that
+// version (added after seeded change S52: numerically equal spellings such as 3.01, 03.1, +3.0).
+func VH_C07_v3_version_free() {
+	v := vrt.StringNo("vtext", "/:")
+	// the metric part is one fixed canonical body: acceptance of a canonical body does not depend on its values (E harnesses)
+	vec := "CVSS:" + v + "/AV:N/AC:L/PR:N/UI:N/S:U/C:H/I:H/A:H"
+	want := v == "3.0" || v == "3.1"
+	bm, e1 := NewBase().Decode(vec)
+	tm, e2 := NewTemporal().Decode(vec)
+	em, e3 := NewEnvironmental().Decode(vec)
+	vrt.Assert((e1 == nil) == want && (e2 == nil) == want && (e3 == nil) == want, "a canonical vector is accepted exactly when its version text is 3.0 or 3.1")
+	if e1 == nil && e2 == nil && e3 == nil {
+		vrt.Assert(bm.Ver.String() == v && tm.Ver.String() == v && em.Ver.String() == v, "the object carries the written version")
+	}
+}
